@@ -35,7 +35,7 @@ func init() {
 		"Decides: the winner is chosen by one atomic compare-and-swap on a variable that is accessed only atomically (R23); the notification of losers cannot block the winner and is not sent on a closed channel (R0,R21,R20); the termination-channel map is not shared unsynchronised between the winner's and the losers' goroutines (R25); every loser's token honours its termination channel in the same select as its pending action (R16).",
 		"'the instance goes on to complete', outcomes of particular delivery interleavings.")
 	prop("C07", "Cancellation stops everything and leaks nothing",
-		[]string{"R0", "R1", "R4", "R12", "R14", "R16", "R17", "R18", "R19", "R20", "R21"}, nil,
+		[]string{"R0", "R1", "R4", "R12", "R14", "R16", "R17", "R18", "R19", "R20", "R21", "R40"}, nil,
 		"Decides, for every goroutine the engine can start and every channel operation in the engine packages: each operation falls into a discharged class — select-guarded by a done-source or default, reply with capacity, mailbox post with a running owner, tracer protocol, closed-only/timer receive, buffered single-use (R0,R4,R14); every parking loop leaves through a done-source case and no done-source case spins (R16); what a goroutine acquired it releases on all exits: wait-group count (R1), sender handle (R17), subscription (R19), completion lock (R12); every goroutine that sends traces holds a sender handle of the tracer it sends on (R18); channels are closed once and never sent to afterwards (R20,R21).",
 		"'promptly'; that a task request racing the cancel carries a cancelled context beyond the structural binding; liveness of third-party code.")
 	prop("C08", "Task requests",
@@ -59,7 +59,7 @@ func init() {
 		"Decides: the completion signal the parent waits for can reach it (trace route, R35); the parent is resumed only after that signal and once (R2,R3); the inner monitor and the forwarding subscription precede the inner start (R11); the sub-process supports exactly the node kinds of a process (R36); inner tokens are counted (R1).",
 		"equivalence with the inlined content, re-entry in a loop.")
 	prop("C13", "Timers",
-		[]string{"R16", "R20", "R21", "R43"}, nil,
+		[]string{"R3", "R16", "R20", "R21", "R43"}, nil,
 		"Decides: the timer callback runs only after a receive from the channel returned by clock.Until/After; one-shot timers call it at most once and then close; the cycle loop tests `repetitions == 0` at its head and decrements on every iteration; after ctx.Done and end-timer cases the function returns (R43,R16); sends never follow close, closes run once (R21,R20); the mock clock sorts before it delivers and removes what it delivered (R43).",
 		"every clause about times: never early for a given clock history, interval spacing, end bound.")
 	prop("C14", "Multiple / parallel-multiple catch events",
